@@ -95,6 +95,7 @@ func VerifMergeInfo(sm *segmentMerge) VerifMerge {
 // VerifState is the removal-eligibility bookkeeping of the index.
 type VerifState struct {
 	RootEpoch     uint64         `json:"root_epoch"`
+	RootFiles     []string       `json:"root_files"` // files of the root's persisted segments
 	Ineligible    []string       `json:"ineligible"`
 	Eligible      []uint64       `json:"eligible"`
 	CopyScheduled map[string]int `json:"copy_scheduled"`
@@ -106,6 +107,11 @@ func (s *Scorch) VerifStateLocked() VerifState {
 	rv := VerifState{CopyScheduled: map[string]int{}}
 	if s.root != nil {
 		rv.RootEpoch = s.root.epoch
+		for _, ss := range s.root.segment {
+			if ps, ok := ss.segment.(segment.PersistedSegment); ok {
+				rv.RootFiles = append(rv.RootFiles, filepath.Base(ps.Path()))
+			}
+		}
 	}
 	for f, ok := range s.ineligibleForRemoval {
 		if ok {
